@@ -351,3 +351,38 @@ func collectRanges(t types.Type, L []string, out *[]string) {
 		}
 	}
 }
+
+// refLeaves returns the indices of the leaves of t that hold object references.
+func refLeaves(t types.Type) []int {
+	var out []int
+	var walk func(t types.Type, off int) int
+	walk = func(t types.Type, off int) int {
+		t = types.Unalias(t)
+		n := len(leavesOf(t))
+		switch u := t.Underlying().(type) {
+		case *types.Pointer, *types.Map, *types.Chan:
+			if n == 1 {
+				out = append(out, off)
+			}
+		case *types.Interface, *types.Signature:
+			if n == 2 {
+				out = append(out, off+1)
+			}
+		case *types.Struct:
+			if n > 0 {
+				o := off
+				for i := 0; i < u.NumFields(); i++ {
+					o += walk(u.Field(i).Type(), o)
+				}
+			}
+		case *types.Tuple:
+			o := off
+			for i := 0; i < u.Len(); i++ {
+				o += walk(u.At(i).Type(), o)
+			}
+		}
+		return n
+	}
+	walk(t, 0)
+	return out
+}
